@@ -576,6 +576,14 @@ def run_shard(ctx, spec):
             rows = table(rnd)
             sorts = [[rnd.choice(FIELDS)] + ([rnd.choice([True, False])] if rnd.random() < 0.7 else []) for _ in range(rnd.randint(1, 3))]
             res = check_sort(rows, sorts)
+        elif op == 'top' and rnd.random() < 0.4:
+            # category values whose texts run into each other when glued together: (1, 12) and (11, 2), (2, 10) and (21, 0), (10.5, 2) and (1, 0.52)
+            rows = table(rnd)
+            pool = rnd.choice([[1, 11, 12, 2], [2, 21, 10, 0], [10.5, 1, 2, 0.52], [1, 11, 12, 2, 112, '1', '12', None, 1.0]])
+            for r in rows:
+                for f in ('a', 'b', 'c'):
+                    r[f] = rnd.choice(pool)
+            res = check_top(rows, rnd.randint(1, 2), rnd.choice([['a', 'b'], ['a', 'b'], ['b', 'c', 'a'], ['c', 'a']]))
         elif op == 'top':
             rows = table(rnd)
             res = check_top(rows, rnd.randint(1, 3), rnd.choice([None, ['a'], ['a', 'b'], ['c']]))
